@@ -42,6 +42,10 @@ CLAIMED = {
          "The `upgradeable` flag and the parameter set of every written record are checked on every Store edge; the Agent model is checked for UpgradeKeepsPasswordAndAdmin, UpgradeOnlyAfterLogin, NoUpgradeWhenOff and the liveness property LoginConverges; on the real agent, idle-convergence scenarios (record rewritten under the default set, same password, admin flag and aux), wrong-password / up-to-date / upgrades-off / remote-mode scenarios (directory byte-identical), the stale-upgrade counterexample and simulated behaviours are executed and their traces validated against TraceAgent.",
          "Remote mode is exercised with an unreachable or stalled master only (no second agent as master).",
          "4/C12"),
+ "C06": ("TLC enumeration of the WebApi authorisation matrix; every (state, request) edge executed against the real handler mux on the real dispatcher",
+         "TLC checks EffectOnlyIfAuthorised, RefusedChangesNothing, NoListDisclosure, NeverBothCredentials and InvalidTokenNeverWorks on the WebApi model and prints every edge (endpoint x session credential kind x old-password kind x target x body shape x reachable state); each edge is one HTTP request through newWebHandler and the real dispatcher with real tokens (logins, a demoted administrator's token, expired / future / tampered / other-instance / garbage tokens); status class, disclosed list, issued token identity and a byte-level snapshot (refusals) or projection (effects) of the store are compared with the model.",
+         "States within MaxDepth effective changes from the initial store (1 quick, 2 thorough). HTTP framing outside the JSON body is not varied.",
+         "4/C06"),
 }
 
 checks = []
